@@ -34,6 +34,11 @@ CHECKS = {
    "Full product of error values (12 error atoms, chains of head + <=2 causes [3 thorough], fmt/Join wrappers, with/without context) x 9 override sets x verbose x 9 Accept headers on both translators, and the assembled decision/proxy/Envoy services with real rules whose scripted steps fail and whose error pipeline is a real default/redirect/www_authenticate handler; oracle is the status table of the statement, agreement between HTTP and gRPC, never 2xx, body only when verbose in a negotiated type.",
    "Which of several different heimdall kinds in one chain wins is a don't-care; behaviour when content negotiation fails is recorded, not judged; scripted mechanisms are the only stand-in inside otherwise real rule objects.",
    "DESIGN.md 4 C12"),
+ "C13": ("exploration", "enum",
+   "bounded exhaustive enumeration of logical requests through the three assembled real services loaded with one rule set of real view-reading mechanisms; pairwise differential oracle",
+   "Full product of method x scheme x 6 rules x 4 path ids (plain, percent-encoded, encoded slash, UTF-8) x queries x header variants (repeated, lower-case) x cookies x bodies, each sent through the real decision and proxy handler chains and the real Envoy gRPC server; decision, every request-view component echoed by a header finalizer (method, URL parts, captures, headers, cookies, decoded body) and the headers/cookies handed upstream must be pairwise equal.",
+   "Envoy's rendering of a request as CheckRequest is an environment model (path=escaped path, query=raw query, lower-cased header map, body in body and raw_body), the one the repository's tests use; client address list is not compared.",
+   "DESIGN.md 4 C13"),
 }
 
 NOT_YET = {
